@@ -163,7 +163,7 @@ class Oracle:
 
 def result_of(ctx, extra=None):
     m = ctx.model
-    if ctx.status == 'ok' and ctx.soft:
+    if ctx.status in ('ok', 'inconclusive') and ctx.soft:
         ctx.status = 'violation'
     r = {
         'status': ctx.status,
